@@ -92,6 +92,9 @@ TABLE = {
 }
 
 
+ARITH_CALL = re.compile(r"^<&?(?:'\w+ )?(isize|usize|i8|i16|i32|i64|i128|u8|u16|u32|u64|u128) as std::ops::(Neg|Add|Sub|Mul|Div|Rem|Shl|Shr|AddAssign|SubAssign|MulAssign|DivAssign|RemAssign)(?:<[^>]*>)?>::")
+
+
 def site_kind(c):
     if "panicking" in c:
         return "panic"
@@ -130,9 +133,14 @@ def collect_sites(fx, cg):
                 k = (owner, "assert:" + t["assert"])
             elif t.get("t") == "Call":
                 c = t.get("callee_res") or t.get("callee") or ""
-                if not any(p in c for p in PANICKY) or c.endswith(("unwrap_or", "unwrap_or_else", "unwrap_or_default")):
+                ar = ARITH_CALL.match(c)
+                if ar:
+                    # integer arithmetic through the operator impls on references (`-n` with n: &isize): overflow / division checks live in the callee
+                    k = (owner, "arith:" + ar.group(2))
+                elif not any(p in c for p in PANICKY) or c.endswith(("unwrap_or", "unwrap_or_else", "unwrap_or_default")):
                     continue
-                k = (owner, site_kind(c))
+                else:
+                    k = (owner, site_kind(c))
             else:
                 continue
             if in_pest:
@@ -365,6 +373,20 @@ def rule_eoi_gcov(ctx):
             ctx.bad("PANIC-NUM", "%s:%s(%s)" % (which, parser, rule), ctx.site(it.parsers[parser]),
                     "text of a `%s` pair is converted with parse::<%s>().unwrap(); the grammar does not bound the number of digits, so a long numeral panics" % (
                         rule, re.sub(r".*Result<(\w+),.*", r"\1", ty)))
+        # the conversion sites above can only fail by overflow (the known finding) if the converted text is a decimal numeral of the target's sign
+        from .. import regular as R
+        for (parser, rule, ty, text_rule) in sorted(set(it.num_parse_text), key=repr):
+            target = re.sub(r".*Result<(\w+),.*", r"\1", ty)
+            if text_rule is None or text_rule not in g.rules:
+                ctx.gap("PANIC-NUMLANG", "%s:%s(%s)" % (which, parser, rule), ctx.site(it.parsers[parser]), "cannot tell which pair's text is converted to %s" % target)
+                continue
+            lang = R.from_pest(g.rules[text_rule]["expr"], g.rules)
+            digits = R.plus(R.cls(R.DIGIT))
+            ref = digits if target.startswith("u") else R.seq(R.opt(R.lit("-")), digits)
+            w = R.subset_witness(lang, ref)
+            ctx.add("PANIC-NUMLANG", "%s:%s(%s)" % (which, parser, rule), w is None, ctx.site(it.parsers[parser]),
+                    "the text of a `%s` pair is converted to %s: every string of that rule is a%s decimal numeral (counterexample: %r)" % (
+                        text_rule, target, "n unsigned" if target.startswith("u") else " signed", w), construct={"rule": text_rule, "target": target})
     ctx.floor("PANIC-EOI", "parsers", n_parsers, 43)
 
 
